@@ -207,6 +207,12 @@ def body(ctx: Ctx, p: dict) -> None:
         margins = m.margins.to_dict()
         if "margins" not in saved or not same(saved["margins"], margins):
             ctx.violation("C19/saved-margins-differ", f"{saved.get('margins')} vs {margins} {tag}")
+        # ... and they are the documented margins of the pipeline (restated independently in C20's reference)
+        from . import c20
+
+        exp_m = c20.expected_margins(p["pipeline"], (H, W))[0]
+        if saved.get("margins") != exp_m:
+            ctx.violation("C19/saved-margins-not-the-pipeline-margins", f"config.json holds {saved.get('margins')}, expected {exp_m} {tag}")
         # the internal 'indicator' key of confidence steps is rewritten by the run (suffix of the step name): not judged
         for sec_cfg in (saved.get("pipeline", {}), completed["pipeline"]):
             for step_cfg in sec_cfg.values():
